@@ -212,7 +212,7 @@ impl tower::Service<Req> for SimInner {
     fn call(&mut self, req: Req) -> InnerFut {
         let svc = self.svc;
         let ready_ok = std::mem::replace(&mut self.ready, false);
-        if world::with(|w| w.calls_by_svc.get(&svc).copied().unwrap_or(0)) > 5000 {
+        if world::with(|w| w.calls_by_svc.get(&svc).copied().unwrap_or(0) > w.call_limit) {
             // a runaway loop inside one poll would otherwise hang the simulator
             panic!("SIM-LIMIT: more than 5000 inner calls in one run");
         }
